@@ -23,7 +23,7 @@ def make_case(i, rng, tier):
     s = common.spec("strict", inp["root"], data, inp["cc"], inp["enc"], strict=True)
     w = common.spec("warn", inp["root"], data, inp["cc"], inp["enc"], strict=False)
     tasks, sched = common.perturb(rng, [s, w], p_by=0.15)
-    return {"input": {"root": inp["root"], "cc": inp["cc"], "enc": inp["enc"], "label": inp["label"], "family": fam},
+    return {"input": {"root": inp["root"], "cc": inp["cc"], "enc": inp["enc"], "label": inp["label"], "family": fam, "orig": bytes(inp["data"]).hex()},
             "faults": recs, "tasks": tasks, "schedule": sched}
 
 
@@ -89,4 +89,5 @@ def check(case):
 
 
 def shrink(case):
+    yield from common.shrink_faults(case, ("strict", "warn"))
     yield from common.shrink_tasks(case, {"strict", "warn"})
